@@ -280,3 +280,6 @@ def run(chk, repo):
     extra = sorted(set(reads) - allowed - {q_ for q_ in set(reads) if 'cmp_' in q_})
     chk.ob('C08.h', 'the strategy is read only by the ORF chooser and the cursor comparators', 'moPepGen/svgraph/PeptideVariantGraph.py:1', not extra,
            f"orf_assignment is also read in {extra}", key='svgraph::orf-assignment-readers')
+    from rules.shared import kwname
+    chk.clauses.append('C08.kw (shared R-THREAD) parameters handed on as keyword arguments keep their name: no `a=b` between two parameters of one function')
+    kwname(chk, repo, 'C08.kw', ['cli.call_novel_orf'], floor=0)
